@@ -223,6 +223,19 @@ func (m *Machine) zeroResults(fn *ssa.Function) Value {
 func (m *Machine) visitGuarded(fr *frame, instr ssa.Instruction) (k int) {
 	defer func() {
 		if r := recover(); r != nil {
+			if gp, ok := r.(goPanic); ok && fr.fn.Synthetic != "" && fr.fn.Name() == "init" {
+				// an init() function or initialiser expression of the package panicked (e.g. it
+				// reads embedded files or the environment): skip it, keep initialising the rest
+				if debugInit {
+					fmt.Fprintf(os.Stderr, "init-panic skipped: %s: %s\n", fr.fn, gp.Desc)
+				}
+				if v, ok := instr.(ssa.Value); ok {
+					fr.env[v] = Poison{gp.Desc}
+				}
+				m.stack = m.stack[:indexOfFrame(m.stack, fr)+1]
+				k = kNext
+				return
+			}
 			if pa, ok := r.(pathAbort); ok && pa.Kind == "unsupported" {
 				if debugInit {
 					fmt.Fprintf(os.Stderr, "init-poison: %s: %s\n", fr.fn, pa.Msg)
@@ -291,6 +304,8 @@ func (m *Machine) callValue(fnv Value, args []Value, site ssa.Instruction) Value
 		return m.callFn(f.Fn, args, f.Env)
 	case *ssa.Builtin:
 		return m.callBuiltin(f, args, site)
+	case NoopFunc:
+		return nil
 	case FuncNil:
 		m.goPanic("invalid memory address or nil pointer dereference (nil func)")
 	case Poison:
